@@ -135,6 +135,15 @@ check("C08", "upload sessions sequential, isolated, no residue", "exploration",
       "DESIGN.md §3 C08",
       [R("^TestC08$", 6000, 200000, steps=40)], variant="go126")
 
+check("C20", "the bounded cache never drops an entry without its cleanup", "exploration",
+      "rapid state machine over cache.Cache inside a testing/synctest bubble; oracle = ledger of callback invocations vs membership (incarnations), LRU and age rules on the virtual clock",
+      "Randomised stateful search over Set/Get/Delete/DeleteAll/List with virtual sleeps around Age and 1.1xAge for every Age x Count combination of the design, with callbacks that "
+      "succeed, fail or are parked on a channel the state machine owns (so Delete-vs-Set, Delete-vs-Delete and DeleteAll-vs-Set interleavings are produced deterministically); "
+      "every disappearance must be covered by a successful cleanup of that very value.",
+      "Trusted: testing/synctest of go1.26.8; the ledger oracle; overwriting a live key by Set is an update (exempt), as documented for PruneFn.",
+      "DESIGN.md §3 C20",
+      [R("^TestC20$", 24000, 1000000, steps=40)], variant="go126")
+
 NOT_APPLICABLE = {}
 
 # --------------------------------------------------------------------------- helpers
